@@ -1162,6 +1162,60 @@ theorem c03k_fits_q {chain : Nat → Level} {r : c03k_Ref} (h : c03k_fits chain 
   unfold c03k_fits at h
   exact of_decide_eq_true h
 
+/-! ## Part 8: relinearisation — from the per-prime statement of C04K to `Spec.phase` -/
+
+/-- the ciphertext level `l` sits inside the key level `kl`: the first `l.size` key-level moduli, same degree, same NTT tables -/
+structure c03k_KeyLevelOf (kl : KeyLevel) (l : Level) : Prop extends c04k_LevelOf kl l where
+  tb : ∀ i, i < l.size → l.tbl i = kl.tb i
+
+theorem c03k_ctPhase_two {S : Type} [CommRing S] (c : Nat → S) (s : S) : ctPhase 2 c s = c 0 + c 1 * s := by
+  unfold ctPhase
+  rw [Finset.sum_range_succ, Finset.sum_range_one]; ring
+
+theorem c03k_ctPhase_three {S : Type} [CommRing S] (c : Nat → S) (s : S) : ctPhase 3 c s = c 0 + c 1 * s + c 2 * (s * s) := by
+  unfold ctPhase
+  rw [Finset.sum_range_succ, Finset.sum_range_succ, Finset.sum_range_one]; ring
+
+theorem c03k_red_of_modEq {q n : Nat} {f g : Nat → Int} (h : ∀ j, j < n → f j ≡ g j [ZMOD (q : Int)]) :
+    c03k_red q n f = c03k_red q n g := by
+  unfold c03k_red
+  exact c03k_toNP_congr (fun j hj => (ZMod.intCast_eq_intCast_iff _ _ _).mpr (h j hj))
+
+/-- the integer coefficient function of C04K (`c04k_polyI`, NTT form) reduces to the ring element `c03k_cpoly` -/
+theorem c03k_red_polyI (l : Level) (ct : Ct) (m k : Nat) :
+    c03k_red (l.q m).value l.n (c04k_polyI (l.tbl m) true ((ct.polys.getD k #[]).getD m #[])) = c03k_cpoly l ct m k := by
+  apply c03k_np_ext
+  intro j hj
+  unfold c03k_red
+  rw [c03k_toNP_co _ hj, c03k_cpoly_co _ _ _ _ hj]
+  unfold c04k_polyI c04t_coefOf
+  rw [if_pos rfl, Int.cast_natCast]
+
+theorem c03k_red_skf (l : Level) (sk : Array Int) (m : Nat) : c03k_red (l.q m).value l.n (c03k_skf sk) = c03k_sNP l sk m := rfl
+
+theorem c03k_red_phase2 (l : Level) (sk : Array Int) (ct : Ct) (m : Nat) (h2 : ct.polys.size = 2) :
+    c03k_red (l.q m).value l.n (fun c => c05u_phase2 l.n (c04k_polyI (l.tbl m) true ((ct.polys.getD 0 #[]).getD m #[]))
+      (c04k_polyI (l.tbl m) true ((ct.polys.getD 1 #[]).getD m #[])) (c03k_skf sk) c) = c03k_phNP l sk ct m := by
+  unfold c05u_phase2 c03k_phNP
+  rw [h2, c03k_ctPhase_two, c03k_red_add, c03k_red_mul, c03k_red_polyI, c03k_red_polyI, c03k_red_skf]
+
+theorem c03k_red_phase3 (l : Level) (sk : Array Int) (ct : Ct) (m : Nat) (h3 : ct.polys.size = 3) :
+    c03k_red (l.q m).value l.n (fun c => c04k_phase3 l.n (c04k_polyI (l.tbl m) true ((ct.polys.getD 0 #[]).getD m #[]))
+      (c04k_polyI (l.tbl m) true ((ct.polys.getD 1 #[]).getD m #[]))
+      (c04k_polyI (l.tbl m) true ((ct.polys.getD 2 #[]).getD m #[])) (c03k_skf sk) c) = c03k_phNP l sk ct m := by
+  unfold c04k_phase3 c03k_phNP
+  rw [h3, c03k_ctPhase_three]
+  have e : (fun c => c04k_polyI (l.tbl m) true ((ct.polys.getD 0 #[]).getD m #[]) c
+        + negMulR l.n (c04k_polyI (l.tbl m) true ((ct.polys.getD 1 #[]).getD m #[])) (c03k_skf sk) c
+        + negMulR l.n (c04k_polyI (l.tbl m) true ((ct.polys.getD 2 #[]).getD m #[]))
+            (fun p => negMulR l.n (c03k_skf sk) (c03k_skf sk) p) c)
+      = (fun c => (fun c' => c04k_polyI (l.tbl m) true ((ct.polys.getD 0 #[]).getD m #[]) c'
+        + negMulR l.n (c04k_polyI (l.tbl m) true ((ct.polys.getD 1 #[]).getD m #[])) (c03k_skf sk) c') c
+        + negMulR l.n (c04k_polyI (l.tbl m) true ((ct.polys.getD 2 #[]).getD m #[]))
+            (negMulR l.n (c03k_skf sk) (c03k_skf sk)) c) := rfl
+  rw [e, c03k_red_add, c03k_red_add, c03k_red_mul, c03k_red_mul, c03k_red_mul, c03k_red_polyI, c03k_red_polyI, c03k_red_polyI,
+    c03k_red_skf]
+
 -- @@PROPS@@
 /-! ## Property theorems -/
 
@@ -1324,6 +1378,49 @@ theorem ckks_rescale_phase {l l' : Level} (hl : l.WF) (hl' : l'.WF) (ht : c05u_T
   have s1 := Int.ModEq.mul_left' (c := (c03k_qL l : Int)) lift2
   rw [← hQz, c03k_rescale_ring] at s1
   exact s1.trans (lift1.symm.add_right _)
+
+/-- K1 RELINEARIZE (+ν) (`relinearize` of C04 on a CKKS level, size 3 → 2): with a relinearisation key satisfying the key equation
+    for s² → s (`c04k_KeyEq`, hypotheses of C04K's `relinearize_phase`; concrete instance `c04k_exRelinKeyEq`), the model succeeds,
+    the result is a canonical size-2 ciphertext and its exact phase is the old exact phase plus the key-switching noise
+    ν = `c04k_nuStd` modulo Q; ‖ν‖∞ is bounded by `switchKey_noise_bound` (restated below) -/
+theorem ckks_relinearize_phase {l : Level} (hl : l.WF) (hq : c07s_LevelQ l) {kl : KeyLevel} (hlo : c03k_KeyLevelOf kl l)
+    (sk : Array Int) {ct : Ct} (hc : CtCanon l ct) (hn : ct.ntt = true) (h3 : ct.polys.size = 3)
+    {key : KSKey} (keys : Nat → Option KSKey) (fuel : Nat) (hk : keys 2 = some key)
+    (h : c04t_KSInput kl l.size ct (ct.polys.getD 2 #[]) key) (hkcc : (key.getD 0 #[]).size = 2)
+    {e : Nat → Nat → Int} {G : Nat → Int}
+    (hke : c04k_KeyEq kl l.size key (c03k_skf sk) (fun p => negMulR kl.n (c03k_skf sk) (c03k_skf sk) p) e G) :
+    ∃ r, relinearize kl .ckks l.size keys (fuel + 2) ct = .ok r ∧ CtCanon l r ∧ r.ntt = true ∧ r.cf = ct.cf ∧ r.polys.size = 2 ∧
+      ∀ j, j < l.n → c03k_phase l sk r j ≡ c03k_phase l sk ct j
+        + c04k_nuStd kl l.size true (ct.polys.getD 2 #[]) key e (c03k_skf sk) j [ZMOD (c03k_Q l : Int)] := by
+  have hmode : c04t_StdMode .ckks ct.ntt := Or.inr ⟨rfl, hn⟩
+  obtain ⟨r, hr, hsz, hnr, hcf, hcan, hph⟩ := relinearize_phase keys fuel h3 hk h hmode hkcc hke
+  rw [hn] at hph hnr
+  have hrc : ∀ k, k < r.polys.size → RnsCanon l (r.polys.getD k #[]) := by
+    intro k hk'
+    obtain ⟨s1, s2⟩ := hcan k (by omega)
+    refine ⟨s1, fun i hi => ?_⟩
+    rw [hlo.n, hlo.q i hi]
+    exact s2 i hi
+  have hcr : CtCanon l r := ⟨⟨by omega, by omega, hrc⟩, by rw [hcf]; exact hc.cf⟩
+  refine ⟨r, hr, hcr, hnr, hcf, hsz, ?_⟩
+  apply c03k_merge hq
+  intro m hm
+  have hm3 := hph m hm
+  rw [← hlo.n, ← hlo.q m hm, ← hlo.tb m hm] at hm3
+  rw [c03k_red_add, c03k_phase_np hl hq sk (.of_ctCanon hcr hnr) hm, c03k_phase_np hl hq sk (.of_ctCanon hc hn) hm,
+    ← c03k_red_phase2 l sk r m hsz, ← c03k_red_phase3 l sk ct m h3, ← c03k_red_add]
+  exact c03k_red_of_modEq hm3
+
+/-- the relinearisation noise: P·‖ν‖∞ ≤ dsz·A·n·Be + ⌊P/2⌋·(1 + ‖s‖₁) for level moduli ≤ A and key errors ‖e_i‖∞ ≤ Be -/
+theorem ckks_relinearize_noise {l : Level} {kl : KeyLevel} (sk : Array Int) {ct : Ct} {key : KSKey}
+    (h : c04t_KSInput kl l.size ct (ct.polys.getD 2 #[]) key) (hn : ct.ntt = true)
+    {s' : Nat → Int} {e : Nat → Nat → Int} {G : Nat → Int} (hke : c04k_KeyEq kl l.size key (c03k_skf sk) s' e G) {A Be : Nat}
+    (hA : ∀ i, i < l.size → (kl.m i).value ≤ A) (he : ∀ i, i < l.size → ∀ p, p < kl.n → (e i p).natAbs ≤ Be) :
+    ∀ c, c < kl.n → (c04k_nuStd kl l.size true (ct.polys.getD 2 #[]) key e (c03k_skf sk) c).natAbs * kl.c04t_P
+      ≤ l.size * (A * (kl.n * Be)) + kl.c04t_P / 2 * (1 + ∑ p ∈ range kl.n, (c03k_skf sk p).natAbs) := by
+  have := switchKey_noise_bound h hke hA he
+  rw [hn] at this
+  exact this
 
 /-! ### K2, program level: soundness of every operation against the reference evaluator (helpers), then the theorem -/
 
@@ -2009,5 +2106,57 @@ theorem c03k_program_nonvacuous :
     | some r =>
       obtain ⟨a, b, c, _, d⟩ := ckks_program_sound c03k_exChainOK c03k_exEnv c03k_exProg hv hr
       exact ⟨v, r, rfl, rfl, a, b, c, d⟩
+
+/-! ### non-vacuity of `ckks_relinearize_phase`: the key level of C04T/C04K (N = 2, q = 13, P = 17), a CKKS level on it whose tool
+     carries the base built by `RNSBase.new`, the size-3 ciphertext and the relinearisation key of C04K -/
+
+def c03k_exRL : Level :=
+  ⟨.ckks, 2, 1, #[c04t_exMod 13], c04t_exMod 5, #[c04t_exTbl 13 5], { (default : RNSTool) with baseQ := c04k_exBase }⟩
+
+theorem c03k_exRL_wf : c03k_exRL.WF := by
+  refine ⟨rfl, rfl, fun i hi => ?_⟩
+  have : i < 1 := hi
+  interval_cases i
+  obtain ⟨h1, h2, h3⟩ := c04t_exKL_wf.twf 0 (by decide)
+  refine ⟨h1, h2, ?_⟩
+  have : (2 : Nat) ^ (c04t_exKL.tb 0).k = 2 ^ 1 := h3
+  exact Nat.pow_right_injective (le_refl 2) this
+
+theorem c03k_exRL_levelQ : c07s_LevelQ c03k_exRL := by
+  obtain ⟨b, hb⟩ := c04t_isOk_ok (x := RNSBase.new [c04t_exMod 13]) (by decide)
+  have e : c04k_exBase = b := by unfold c04k_exBase; rw [hb]
+  refine ⟨c04k_exBaseOf.wf, ?_⟩
+  show c04k_exBase.base = #[c04t_exMod 13]
+  rw [e, c01q_base_of_new hb]
+
+/-- `c03k_KeyLevelOf` is satisfiable -/
+theorem c03k_exRL_of : c03k_KeyLevelOf c04t_exKL c03k_exRL := by
+  refine ⟨⟨rfl, rfl, fun i hi => ?_⟩, fun i hi => ?_⟩
+  · have : i < 1 := hi
+    interval_cases i
+    rfl
+  · have : i < 1 := hi
+    interval_cases i
+    rfl
+
+theorem c03k_exRL_ct : CtCanon c03k_exRL (c04k_exCt3 true) := by
+  refine ⟨⟨by decide, by decide, by decide +kernel⟩, ?_⟩
+  show (1 : Nat) = 1
+  rfl
+
+/-- all hypotheses of `ckks_relinearize_phase` hold simultaneously; its conclusion on the instance -/
+theorem c03k_relinearize_nonvacuous (keys : Nat → Option KSKey) (hk : keys 2 = some c04k_exRelinKey) (fuel : Nat) :
+    ∃ r, relinearize c04t_exKL .ckks 1 keys (fuel + 2) (c04k_exCt3 true) = .ok r ∧ CtCanon c03k_exRL r ∧ r.polys.size = 2 ∧
+      ∀ j, j < 2 → c03k_phase c03k_exRL #[1, -1] r j ≡ c03k_phase c03k_exRL #[1, -1] (c04k_exCt3 true) j
+        + c04k_nuStd c04t_exKL 1 true ((c04k_exCt3 true).polys.getD 2 #[]) c04k_exRelinKey c04k_exE (c03k_skf #[1, -1]) j
+          [ZMOD (c03k_Q c03k_exRL : Int)] := by
+  have hke : c04k_KeyEq c04t_exKL c03k_exRL.size c04k_exRelinKey (c03k_skf #[1, -1])
+      (fun p => negMulR c04t_exKL.n (c03k_skf #[1, -1]) (c03k_skf #[1, -1]) p) c04k_exE c04k_exG := by
+    have h := c04k_exRelinKeyEq
+    rw [c04k_exS_eq] at h
+    exact h
+  obtain ⟨r, h1, h2, _, _, h5, h6⟩ := ckks_relinearize_phase c03k_exRL_wf c03k_exRL_levelQ c03k_exRL_of #[1, -1] c03k_exRL_ct rfl rfl
+    keys fuel hk (c04k_exKSInput3 true) (by decide) hke
+  exact ⟨r, h1, h2, h5, h6⟩
 
 end HC
